@@ -22,6 +22,7 @@ def build_loop_slice():
     return u, lp["body"]["stmts"], extract.sha(extract.text_of(u.tree, lp["body"]))
 
 
+@isolated('bisector', lambda o: ([o], {"fn": "(unit not evaluated)", "slice_sha": ""}))
 def bisector_obligations(prefix):
     u, stmts, sha = build_loop_slice()
     gens = grid.sym_generators("gb_")
@@ -127,6 +128,7 @@ def sym_cell(tag="cell"):
                                  "safety_radius": real(tag + "_sr")}), planes
 
 
+@isolated('face_init')
 def face_init_obligations(prefix):
     """VoronoiFaceIntegral::init (normal) and FaceIntegrator::init (labels)."""
     obs = []
@@ -170,6 +172,7 @@ def face_init_obligations(prefix):
     return obs, [uf, ui]
 
 
+@isolated('accumulators')
 def accumulator_obligations(prefix):
     """collect/finalize of the built-in face and cell integrals as an inductive invariant over the feed of tetrahedra."""
     obs, units = [], []
